@@ -67,7 +67,7 @@ def rand_weights(rng, n, units, klass, monos=None):
 def gen_descs(ctx):
   rng = ctx.rng
   out = []
-  for _ in range(ctx.n(220, 4000)):
+  for _ in range(ctx.n(350, 4000)):
     n = rng.randint(1, 6)
     units = rng.choice([1, 1, 2, 3])
     monos = [rng.choice([-1, 0, 1, 1]) for _ in range(n)]
@@ -109,7 +109,7 @@ def gen_descs(ctx):
     W = rand_weights(rng, n, units, klass, monos)
     out.append(dict(kind="linear", n=n, units=units, monos=monos, mdom=mdom, rdom=rdom, lo=lo, hi=hi,
                     norm=norm, W=W, wclass=klass))
-  for _ in range(ctx.n(160, 3000)):
+  for _ in range(ctx.n(250, 3000)):
     n = rng.randint(2, 8)
     units = rng.choice([1, 1, 2, 3])
     c = rng.random()
